@@ -17,7 +17,8 @@
    ([CCollect]) and the later bulk Del of the i-th cleanup in flight ([CDeleteKeys i]);
    [flat_map ev_op es] = the client operations of the schedule, in order; [cget s k] = Get(k). *)
 From Kit Require Import C15.Model C15.Spec C15.Check C15.ProofsMap C15.Proofs C15.ProofsConc
-  C15.ProofsLife C15.ProofsMain C15.Ghost.
+  C15.ProofsLife C15.ProofsMain C15.Ghost C15.ProofsOracle C15.ProofsTrace
+  C15.ProofsLifeTrace.
 Local Open Scope Z_scope.
 
 (* GET IS SOUND (sequential).  For every MaxTTL, initial clock and history of any length: if Get(k)
@@ -335,3 +336,72 @@ Theorem C15_get_sound_fixed : forall maxttl t0 es s k v,
     elapsed h2 < eff_ttl maxttl ttl * second_ns.
 Proof. exact ghost_fixed_get_sound. Qed.
 Print Assumptions C15_get_sound_fixed.
+
+(* THE ORACLE IS SOUND AND COMPLETE FOR THE PROPERTY'S CLAUSES.  [res_spec strict maxttl a o r]
+   (Spec.v) is what the property text demands of the observed result [r] of operation [o] issued
+   after the chronological history [a], stated declaratively: a Set returns iff its TTL is
+   positive; a hit is justified by [a]; in strict (sequential) mode a miss is unjustifiable (int64
+   corner aside) and an observed key list contains every key Get must still answer; the other
+   operations return normally.  [trace_spec] = one result per operation, each as demanded.
+   The executable oracle answers true EXACTLY when the trace specification holds - in both
+   modes, for every history and every observation. *)
+Theorem C15_trace_oracle_iff : forall strict maxttl h rs,
+  all_obs_ok strict maxttl [] h rs = true <->
+  (length h = length rs /\
+   forall a o b r, h = a ++ o :: b -> nth_error rs (length a) = Some r ->
+                   res_spec strict maxttl a o r).
+Proof. exact all_obs_ok_iff. Qed.
+Print Assumptions C15_trace_oracle_iff.
+
+(* ... and so does the oracle of a whole case ([case_spec], Check.v: the trace specification plus
+   "Stop returned and the cleaner had exited", resp. for overlapping Stops "every call returned
+   with the cleaner exited and no late cleanup work was seen"); verdict 2 is given exactly when
+   the specification of the case is violated. *)
+Theorem C15_oracle_iff : forall c, oracle c = true <-> case_spec c.
+Proof. exact oracle_iff. Qed.
+Print Assumptions C15_oracle_iff.
+
+Theorem C15_verdict_two_iff : forall c, check_case c = 2 <-> ~ case_spec c.
+Proof. exact verdict_two_iff. Qed.
+Print Assumptions C15_verdict_two_iff.
+
+(* THE MODEL IMPLEMENTS THE WHOLE API SPECIFICATION (sequential).  On every forward history the
+   result of EVERY operation of the model (Set accepted / refused, Get, Keys, Delete, Cleanup,
+   Reset, Stop) is the one the property demands. *)
+Theorem C15_model_meets_trace_spec : forall maxttl t0 ops,
+  forallb op_forward ops = true -> trace_spec true maxttl ops (results maxttl t0 ops).
+Proof. exact model_meets_trace_spec. Qed.
+Print Assumptions C15_model_meets_trace_spec.
+
+(* Hence a sequential case on which the implementation was observed to do exactly what the model
+   does has an observation that meets the specification. *)
+Theorem C15_agreeing_case_meets_spec : forall maxttl ops obs sr ce,
+  forallb op_forward ops = true ->
+  model_agrees (CSeq maxttl ops obs sr ce) = true -> trace_spec true maxttl ops obs.
+Proof. exact agreeing_case_meets_spec. Qed.
+Print Assumptions C15_agreeing_case_meets_spec.
+
+(* THE INTERLEAVED MODEL, TRACE LEVEL.  [ctrace maxttl s es] (Model.v) runs a schedule and collects
+   what each client gets back (Set accepted / refused, Get hit / miss ...).  For EVERY schedule of
+   client operations and two-phase cleanups the collected trace meets the hits-only trace
+   specification: the concurrent oracle never rejects a behaviour of the model.  Check.v runs
+   [ctrace] on the client operations of every concurrent case (cleanup-free schedule) and
+   requires every observed hit to be the model's hit. *)
+Theorem C15_conc_trace_meets_spec : forall maxttl t0 es s rs,
+  ctrace maxttl (cinit t0) es = Some (s, rs) ->
+  trace_spec false maxttl (flat_map ev_op es) rs.
+Proof. exact conc_trace_meets_spec. Qed.
+Print Assumptions C15_conc_trace_meets_spec.
+
+(* STOP, OBSERVATION LEVEL.  [lcollect s seen es] (Model.v) is what an observer of the life-cycle
+   model records along a schedule: for every Stop call that returns, (returned, the cleaner had
+   exited at that moment), and whether the cleaner took a tick or finished a pass after some call
+   had returned.  For EVERY schedule (any number of overlapping Stop calls, ticks, passes) the
+   recorded observation is one the oracle of a "stops" case accepts: every returned call saw the
+   cleaner exited and no late work exists.  Check.v runs [lcollect] on the schedule of the
+   scenario ([stops_schedule n]: cleaner inside a pass, n overlapping calls) for every stops case
+   and compares the implementation's observation with it. *)
+Theorem C15_stops_observation_ok : forall es calls late,
+  lcollect linit false es = Some (calls, late) -> oracle (CStops calls late) = true.
+Proof. exact stops_observation_ok. Qed.
+Print Assumptions C15_stops_observation_ok.
